@@ -16,6 +16,9 @@
 //	                       @upd:<r>:<body> update one live doc of a target       @seg:<r> delete ALL live docs of one target segment
 //	                       @all delete all live docs of all targets              @segupd:<r>:<body> update all docs of one target segment
 //	                       @stay:<r> delete one live doc of a NON-target segment  @stayupd:<r>:<body> update one
+//	prep <op>…             like batch, but the call is HELD inside prepareSegment (at its first DocsMatchingTerms, i.e. after it
+//	                       captured the root and while it computes the optimistic obsoletes) until `unprep`
+//	unprep                 let the held batch go on to the introducer, wait for its introduction
 //	fill n=<N> s=<seed>    up to N generated batches (updates/inserts/deletes over ids 1..K), stops when an armed gate is hit
 //	arm <gate>[#n] …       (replaces the armed set) the n-th next hit of the gate parks its goroutine and freezes the background
 //	await                  wait (bounded) until an armed gate was hit and the background is settled
@@ -82,7 +85,9 @@ func (h) Rule() string {
 		"(ps:write/segwritten/loaded/swapped/snapwritten) at each of which 1–2 batches land that delete/update documents of exactly " +
 		"the segments under merge/persist (one doc, one doc of a segment that already carries deletions, all docs of one segment, " +
 		"all docs of all segments, a doc of a staying segment), reader views at every phase and at quiescence, readers held open at " +
-		"the gates and before the release and read again at the end together with the physical root they hold; configurations " +
+		"the gates and before the release and read again at the end together with the physical root they hold; every fourth case " +
+		"holds a batch that names documents of the merging segments INSIDE prepareSegment (after it captured the root) while the " +
+		"parked file / in-memory merge is introduced, then lets it be introduced; configurations " +
 		"cycle through {mem,fs}x{ice v1,v2}x{safe,unsafe}x MinSegmentsForInMemoryMerge {1,2,3,100} x merge-plan floor {1,4,100} x " +
 		"segments per merge task {2,3} (tier 2; floor 100 merges whenever two persisted segments exist); thorough enumerates every " +
 		"(gate, batch kind) and every ordered pair of gates of one scenario, quick takes a seeded sample; an evaluation is one " +
@@ -279,7 +284,10 @@ type world struct {
 	dataID     map[*segment.Data]uint64
 	merges     []*mergeRec
 	mergeSeq   int
-	round      []uint64 // segment ids persisted directly since the last snapshot file
+	prepArmed  bool          // the next DocsMatchingTerms call (prepareSegment of the next batch) parks
+	prepCh     chan struct{} // the batch parked in prepareSegment
+	prepSeen   uint64        // epoch of the root that batch captured
+	round      []uint64      // segment ids persisted directly since the last snapshot file
 	idx        *index.Writer
 }
 
@@ -430,6 +438,63 @@ func (g *gmerger) DocumentNumbers() [][]uint64 {
 	return t
 }
 
+// gseg wraps every segment object the plugin hands to the writer: DocsMatchingTerms is the only point of a batch
+// between prepareSegment's snapshot of the root and the hand-off to the introducer, so that is where a batch is HELD
+// ("prepared before the merge is introduced, introduced after").
+type gseg struct{ segment.Segment }
+
+func (g *gseg) DocsMatchingTerms(terms []segment.Term) (*roaring.Bitmap, error) {
+	prepGate()
+	return g.Segment.DocsMatchingTerms(terms)
+}
+
+func unwrapSegs(segs []segment.Segment) []segment.Segment {
+	out := make([]segment.Segment, len(segs))
+	for i, s := range segs {
+		if g, ok := s.(*gseg); ok {
+			out[i] = g.Segment
+		} else {
+			out[i] = s
+		}
+	}
+	return out
+}
+
+// prepGate: when the script armed a hold, the first DocsMatchingTerms call after that (the script issues batches one
+// at a time and every earlier batch has been introduced, so it is prepareSegment's call for the held batch) parks.
+func prepGate() {
+	mu.Lock()
+	w := W
+	if !w.active || w.passAll || !w.prepArmed {
+		mu.Unlock()
+		return
+	}
+	w.prepArmed = false
+	w.prepSeen = w.lastEpoch // the root prepareSegment has just captured
+	ch := make(chan struct{})
+	w.prepCh = ch
+	w.activity++
+	mu.Unlock()
+	<-ch
+	mu.Lock()
+	w.activity++
+	mu.Unlock()
+}
+
+func releasePrep() bool {
+	mu.Lock()
+	w := W
+	w.prepArmed = false
+	ch := w.prepCh
+	w.prepCh = nil
+	mu.Unlock()
+	if ch != nil {
+		close(ch)
+		return true
+	}
+	return false
+}
+
 func wrapPlugin(ver int) *index.SegmentPlugin {
 	newF, loadF, mergeF := iceV1.New, iceV1.Load, iceV1.Merge
 	typ, version := iceV1.Type, uint32(iceV1.Version)
@@ -441,21 +506,24 @@ func wrapPlugin(ver int) *index.SegmentPlugin {
 		Type:    typ,
 		Version: version,
 		New: func(results []segment.Document, normCalc func(string, int) float32) (segment.Segment, uint64, error) {
-			seg, n, err := newF(results, normCalc)
-			if err == nil && seg != nil {
-				ds := readAllDocs(seg)
-				mu.Lock()
-				W.segDocs[seg] = ds
-				mu.Unlock()
+			raw, n, err := newF(results, normCalc)
+			if err != nil || raw == nil {
+				return raw, n, err
 			}
-			return seg, n, err
+			ds := readAllDocs(raw)
+			seg := &gseg{Segment: raw}
+			mu.Lock()
+			W.segDocs[seg] = ds
+			mu.Unlock()
+			return seg, n, nil
 		},
 		Load: func(data *segment.Data) (segment.Segment, error) {
-			seg, err := loadF(data)
-			if err != nil || seg == nil {
-				return seg, err
+			raw, err := loadF(data)
+			if err != nil || raw == nil {
+				return raw, err
 			}
-			ds := readAllDocs(seg)
+			ds := readAllDocs(raw)
+			seg := &gseg{Segment: raw}
 			mu.Lock()
 			w := W
 			w.segDocs[seg] = ds
@@ -502,7 +570,7 @@ func wrapPlugin(ver int) *index.SegmentPlugin {
 			w.merges = append(w.merges, rec)
 			mu.Unlock()
 			gate(rec.pre()+":planned", rec.sids)
-			return &gmerger{Merger: mergeF(segs, drops, bufSize), rec: rec}
+			return &gmerger{Merger: mergeF(unwrapSegs(segs), drops, bufSize), rec: rec}
 		},
 	}
 }
@@ -652,18 +720,20 @@ type heldReader struct {
 }
 
 type caseState struct {
-	w       *bluge.Writer
-	dir     string
-	k       int
-	cfg     string
-	prev    map[uint64]bool // sid -> persisted, of the last emitted root
-	prevEv  *event
-	history string
-	queue   []*pendingBatch // batches issued, in order, whose introduction has not been emitted yet
-	all     []*pendingBatch
-	held    []heldReader
-	window  bool // a batch has landed while a goroutine was parked
-	body    int
+	w          *bluge.Writer
+	dir        string
+	k          int
+	cfg        string
+	prev       map[uint64]bool // sid -> persisted, of the last emitted root
+	prevEv     *event
+	history    string
+	queue      []*pendingBatch // batches issued, in order, whose introduction has not been emitted yet
+	all        []*pendingBatch
+	held       []heldReader
+	window     bool          // a batch has landed while a goroutine was parked
+	prepPB     *pendingBatch // the batch held in prepareSegment
+	prepBefore int
+	body       int
 }
 
 var cur *caseState
@@ -752,6 +822,7 @@ func closeCase(out func(string, string), st sink) {
 	if cur == nil {
 		return
 	}
+	finishPrep(out, st)
 	releaseAll()
 	mu.Lock()
 	W.armed = map[string]int{}
@@ -1138,26 +1209,36 @@ func resolveOps(ops string, st sink) string {
 
 // issue one batch and wait until the introducer has installed its root
 func issueBatch(ops string, out func(string, string), st sink) bool {
+	pb, before, ok := startBatch(ops, false, out, st)
+	if !ok {
+		return false
+	}
+	return waitIntro(pb, before, out)
+}
+
+// startBatch resolves and starts one Writer.Batch call on its own goroutine. With hold, the call parks in
+// prepareSegment (first DocsMatchingTerms, i.e. after it captured the root) until `unprep`.
+func startBatch(ops string, hold bool, out func(string, string), st sink) (*pendingBatch, int, bool) {
 	ops = resolveOps(ops, st)
-	b, n, err := parseOps(ops)
+	b, _, err := parseOps(ops)
 	if err != nil {
 		out("batcherr "+ops, "bad-script")
-		return false
+		return nil, 0, false
 	}
 	if strings.TrimSpace(ops) == "" {
 		ops = "-"
 	}
-	_ = n
 	mu.Lock()
 	before := W.introCount
 	np := len(W.parked)
 	seen := W.lastEpoch
+	g := W.armedGate
+	if hold {
+		W.prepArmed = true
+	}
 	mu.Unlock()
 	if np > 0 {
 		cur.window = true
-		mu.Lock()
-		g := W.armedGate
-		mu.Unlock()
 		st.Count("window-batch-at:" + g)
 	}
 	pb := &pendingBatch{ops: strings.Join(strings.Fields(ops), " "), seen: seen, done: make(chan struct{})}
@@ -1173,6 +1254,10 @@ func issueBatch(ops string, out func(string, string), st sink) bool {
 		}()
 		pb.err = w.Batch(b)
 	}()
+	return pb, before, true
+}
+
+func waitIntro(pb *pendingBatch, before int, out func(string, string)) bool {
 	deadline := time.Now().Add(8 * time.Second)
 	for {
 		mu.Lock()
@@ -1198,6 +1283,57 @@ func issueBatch(ops string, out func(string, string), st sink) bool {
 			return false
 		}
 		time.Sleep(200 * time.Microsecond)
+	}
+}
+
+// prep: start a batch and hold it between prepareSegment's snapshot of the root and the hand-off to the introducer
+func prepBatch(ops string, out func(string, string), st sink) {
+	finishPrep(out, st) // at most one held batch
+	pb, before, ok := startBatch(ops, true, out, st)
+	if !ok {
+		mu.Lock()
+		W.prepArmed = false
+		mu.Unlock()
+		return
+	}
+	deadline := time.Now().Add(time.Second)
+	for {
+		mu.Lock()
+		held := W.prepCh != nil
+		c := W.introCount
+		if held {
+			pb.seen = W.prepSeen
+		}
+		mu.Unlock()
+		if held {
+			cur.prepPB, cur.prepBefore = pb, before
+			st.Count("prep:held")
+			return
+		}
+		if c > before || time.Now().After(deadline) {
+			// the root had no segment to look ids up in (or the call is stuck elsewhere): not held, never a mismatch
+			mu.Lock()
+			W.prepArmed = false
+			mu.Unlock()
+			st.Count("prep:not-held")
+			waitIntro(pb, before, out)
+			return
+		}
+		time.Sleep(200 * time.Microsecond)
+	}
+}
+
+// unprep: let the held batch go on to the introducer and wait for its root
+func finishPrep(out func(string, string), st sink) {
+	if cur == nil || cur.prepPB == nil {
+		releasePrep()
+		return
+	}
+	pb, before := cur.prepPB, cur.prepBefore
+	cur.prepPB = nil
+	releasePrep()
+	if waitIntro(pb, before, out) {
+		st.Count("prep:released-and-introduced")
 	}
 }
 
@@ -1540,10 +1676,18 @@ func execReal(line string, out func(string, string), st sink, work string) {
 		}
 		out(line, "case")
 	case "batch":
+		finishPrep(out, st)
 		rest := strings.TrimSpace(line[len(w[0]):])
 		st.Count("op:batch")
 		issueBatch(rest, out, st)
+	case "prep":
+		rest := strings.TrimSpace(line[len(w[0]):])
+		st.Count("op:prep")
+		prepBatch(rest, out, st)
+	case "unprep":
+		finishPrep(out, st)
 	case "fill":
+		finishPrep(out, st)
 		n, seed := 1, uint64(1)
 		for _, x := range w[1:] {
 			if strings.HasPrefix(x, "n=") {
@@ -1584,6 +1728,7 @@ func execReal(line string, out func(string, string), st sink, work string) {
 	case "release":
 		releaseAll()
 	case "quiesce":
+		finishPrep(out, st)
 		releaseAll()
 		if !quiesce(6*time.Second, true) {
 			st.Count("quiesce-timeout")
@@ -1915,8 +2060,61 @@ func (h) Gen(r *hlib.Rand, tier string, scale int, emit func(string)) {
 		emit("read")
 		emit("end")
 	}
+	// "prepared before the merge is introduced, introduced after": the merge is parked just before its hand-off to the
+	// introducer, a batch naming documents of the merging segments (and one of a staying segment) is held inside
+	// prepareSegment, the merge is introduced, then the batch
+	prepKinds := []string{"@upd+@one+@stayupd", "@one+@stay", "@upd", "@seg+@stayupd", "@all", "@onedel+@upd+@stay", "@segupd", "@one"}
+	prepCase := func(file bool, kind string) {
+		cfgName := dirs[cno%2] + "-" + vers[(cno/2)%2] + "-" + modes[(cno/4)%2]
+		variant := (cno / 8) % 2
+		cno++
+		body = 0
+		k := r.Range(4, 10)
+		g1, g2 := "fm:introstart", "fm:introduced"
+		mm, floor := []int{2, 100}[variant], 100
+		if !file {
+			g1, g2 = "mm:loaded", "mm:introduced"
+			mm, floor = []int{1, 2}[variant], []int{100, 4}[r.Intn(2)]
+		}
+		emit(fmt.Sprintf("case %s k=%d mm=%d mp=%d per=%d", cfgName, k, mm, floor, r.Range(2, 3)))
+		if pre := r.Intn(3); pre > 0 {
+			emit(fmt.Sprintf("fill n=%d s=%d", pre, r.U64()%1000000))
+		}
+		if !file && mm > 1 {
+			emit("arm ps:write mm:planned snp:write")
+			emit(fmt.Sprintf("fill n=%d s=%d", 1, r.U64()%1000000))
+			emit("await")
+			emit(fmt.Sprintf("fill n=%d s=%d", r.Range(2, 3), r.U64()%1000000))
+		}
+		emit("arm " + g1)
+		emit("release")
+		emit(fmt.Sprintf("fill n=%d s=%d", 9, r.U64()%1000000))
+		emit("await")
+		emit("read")
+		emit("prep" + strings.TrimPrefix(symBatch(kind), "batch"))
+		emit("arm " + g2)
+		emit("release")
+		emit("await")
+		emit("read")
+		if r.Chance(50) {
+			emit("hold")
+		}
+		emit("unprep")
+		emit("read")
+		emit("release")
+		emit("quiesce")
+		emit("read")
+		emit("reread")
+		emit("end")
+	}
 	if tier == "thorough" {
 		for rep := 0; rep < scale; rep++ {
+			for i := 0; i < 16; i++ {
+				for _, pk := range prepKinds {
+					prepCase(true, pk)
+					prepCase(false, pk)
+				}
+			}
 			for _, sc := range scenarios {
 				for i, g1 := range sc.phases {
 					for _, k1 := range kinds {
@@ -1935,6 +2133,10 @@ func (h) Gen(r *hlib.Rand, tier string, scale int, emit func(string)) {
 	}
 	n := 100 * scale
 	for c := 0; c < n; c++ {
+		if c%4 == 3 {
+			prepCase((c/4)%2 == 0, prepKinds[(c/8)%len(prepKinds)])
+			continue
+		}
 		sc := scenarios[c%len(scenarios)]
 		i := r.Intn(len(sc.phases))
 		g1 := sc.phases[i]
